@@ -64,7 +64,10 @@ ASSUMPTIONS = [
     "initial values are recomputed from the generated tree in numpy; when two options request the same quantity "
     "(--heights_init tree with --root_height_init) nothing is asserted; in addition the constrained initial values "
     "of parameters with the same id must agree between the sub-commands of one core tuple",
-    "clause (d): z = the tensors moved by the MCMC operators, or the x of the variational distribution; y = the "
+    "clause (d) is applied to every density that the emitted file hands to an algorithm object, located from the "
+    "loaded objects and from the file's own references (Optimizer.loss.p for ELBO / KLpqImportance / ..., the "
+    "convergence criterion's loss.p, MCMC.joint, the Hamiltonian of each HMC operator), not to the object that "
+    "happens to be called joint.jacobian; z = the tensors moved by the MCMC operators, or the x of the variational distribution; y = the "
     "variables on which the loaded joint places densities, by class (Distribution.x, GMRF.field, CTMCScale.x, "
     "ScaleMixtureNormal.x, branch lengths for the gamma-Dirichlet prior, internal node heights for coalescent and "
     "birth-death priors; Dirichlet variables drop their last coordinate). Jacobian terms of joint.jacobian that "
@@ -653,6 +656,59 @@ def zblocks_of(cmd, dic, alg, spec=None):
     return blocks
 
 
+def handed_densities(cmd, spec, dic, alg):
+    """[(where, object)]: every density over the unconstrained parameters that the emitted file hands to an
+    algorithm object, located twice: from the loaded objects (Optimizer.loss.p, its convergence criterion's loss.p,
+    MCMC.joint, the Hamiltonian of every HMC operator) and from the "joint" references inside the Optimizer / MCMC
+    elements of the file (loss, convergence loss, operators), resolved through the registry. One entry per distinct
+    object, in a stable order, the algorithm's own target first"""
+    found = []
+
+    def add(where, obj):
+        if obj is None or not callable(obj):
+            return
+        for i, (w, o) in enumerate(found):
+            if o is obj:
+                if where not in w.split(","):
+                    found[i] = (w + "," + where, o)
+                return
+        found.append((where, obj))
+
+    if alg is not None:
+        if cmd in ("mcmc", "hmc"):
+            add(cmd + ".joint", getattr(alg, "joint", None))
+            for op in getattr(alg, "_operators", ()):
+                h = getattr(op, "_hamiltonian", None)
+                if h is not None:
+                    add("operator.hamiltonian.joint", getattr(h, "joint", None))
+        else:
+            loss = getattr(alg, "loss", None)
+            add("optimizer.loss.p", getattr(loss, "p", None) if hasattr(loss, "q") else loss)
+            conv = getattr(alg, "convergence", None)
+            closs = getattr(conv, "loss", None)
+            if closs is not None:
+                add("optimizer.convergence.loss.p", getattr(closs, "p", None) if hasattr(closs, "q") else closs)
+
+    def walk(d, path):
+        if isinstance(d, dict):
+            for k, v in d.items():
+                if k == "joint":
+                    ref = v if isinstance(v, str) else (v.get("id") if isinstance(v, dict) else None)
+                    if ref is not None and ref in dic:
+                        add("json:" + path + ".joint", dic[ref])
+                if k == "loss" and isinstance(v, str) and v in dic and not hasattr(dic[v], "q"):
+                    add("json:" + path + ".loss", dic[v])
+                walk(v, path + "." + k if path else k)
+        elif isinstance(d, list):
+            for e in d:
+                walk(e, path)
+
+    for e in spec if isinstance(spec, list) else []:
+        if isinstance(e, dict) and e.get("type") in ("Optimizer", "MCMC"):
+            walk(e, str(e.get("id")))
+    return found
+
+
 def prior_variables(joint):
     """[(key, getter)] for every density of the joint that is placed on a random variable; None when a class is
     not in the table"""
@@ -1037,9 +1093,13 @@ def eval_config(cmd, opts, data, res, case):
     blocks = zblocks_of(cmd, dic, alg, spec) if alg is not None else None
     out["nblocks"] = len(blocks) if blocks else 0
     # ---- (b) target and gradient finite at the initial point
-    density = dic.get("joint.jacobian") if cmd != "map" else joint
-    if alg is not None:
-        density = getattr(alg, "joint", None) if cmd in ("mcmc", "hmc") else (alg.loss if cmd == "map" else density)
+    handed = handed_densities(cmd, spec, dic, alg)
+    out["handed"] = [w for w, _ in handed]
+    if handed:
+        density = handed[0][1]
+    else:
+        # no algorithm element (advi --iter 0): the density the sampler's logger reports
+        density = dic.get("joint.jacobian") if cmd != "map" else joint
     if density is None:
         res.fail("structure:no_target", {"argv": tags["_argv"]}, **ftags)
         return out
@@ -1105,13 +1165,15 @@ def eval_config(cmd, opts, data, res, case):
         if blocks is not None:
             for b, t in zip(blocks, saved_x):
                 b.tensor = t
-    # ---- (d) Jacobian bookkeeping
+    # ---- (d) Jacobian bookkeeping of every density that is handed to an algorithm object
     if cmd != "map" and alg is not None:
         if blocks is None:
             count("jac_no_z")
         else:
-            info, ok = try_("jacobian", res, tags, jacobian_oracle, density, joint, blocks)
-            if ok:
+            for where, dens in handed:
+                info, ok = try_("jacobian", res, tags, jacobian_oracle, dens, joint, blocks)
+                if not ok:
+                    break
                 st_ = info["status"]
                 if st_ == "ok":
                     count("jac_checked")
@@ -1119,11 +1181,15 @@ def eval_config(cmd, opts, data, res, case):
                         count("jac_free_terms")
                     if abs(info["observed"] - info["expected"]) > 1e-8 * max(1.0, abs(info["expected"])):
                         info["argv"] = tags["_argv"]
+                        info["handed_to"] = where
+                        info["density"] = str(getattr(dens, "id", None))
                         res.fail("jacobian:" + explain_jacobian(info), info, **ftags)
                 else:
                     count("jac_" + st_)
                     for u in info.get("unknown", []):
                         count("jac_unknown_class:" + u)
+            if len(handed) > 1:
+                count("jac_several_densities")
     # ---- one iteration, in a fresh load, interleaved as torchtree.main does
     running = []
 
